@@ -10,6 +10,7 @@ def numItersOf (kind : String) : NumIters :=
   | "0" => .value 0 | "1" => .value 1 | "3" => .value 3
   | "2.5" => .value 2                 -- uint(2.5)
   | "0.5" | "0.999" => .value 0       -- uint(0.5) = 0: not a positive number of iterations
+  | "huge" => .value (2 ^ 63)
   | _ => .value 0                     -- '3' (a string), nil, true, a table: not an LNumber
 
 def assertTrueOf (kind : String) : Bool := kind == "true" || kind == "truemsg"
@@ -33,7 +34,8 @@ def handleVerdict (line : String) : String :=
       -- the property, directly: OK only if the driver ran at least once to its BRK and every assert made returned true
       let n := iterCount (numItersOf ni)
       let shouldFail := !runOk || broken != "0" || n == 0 ||
-        (List.range n).any (fun i => !(assertTrueOf (asserts.getD i "true")) || (i : Int) == arrErr)
+        -- (assertions beyond the listed ones return true and arrange faults only in the first three iterations)
+        (List.range (min n (asserts.length + 1))).any (fun i => !(assertTrueOf (asserts.getD i "true")) || (i : Int) == arrErr)
       let v := if res.trim == "hostcrash" then "VIOL C09:hostcrash"
         else if res.trim == "ok" && shouldFail then s!"VIOL C09:ok-but-should-fail:{bin}:{ni}:{assertsS}"
         else if res.trim == "fail" && !shouldFail then s!"VIOL C09:fail-but-all-passed:{bin}:{ni}:{assertsS}"
